@@ -132,11 +132,11 @@ def build(extra_mods=(), force_assumed=(), drop_ghost=()):
     # iso_gf (self-contained, compute-heavy) gets its own module so that it verifies in parallel; all other
     # ISO files share one module (by(compute) must see through opaque table functions, which only works
     # inside the defining module)
-    sep = [nm for nm in iso_names if nm in ('iso_gf',)]
+    sep = [nm for nm in iso_names if nm in ('iso_gf', 'iso_synd')]
     main_text = ''
     for p, nm in zip(iso_files, iso_names):
         if nm in sep:
-            uses = ''.join('use crate::%s::*;\n' % o for o in mods)
+            uses = ''.join('use crate::%s::*;\n' % o for o in mods) + ''.join('use crate::%s::*;\n' % o for o in sep if o < nm)
             iso_chunks.append('pub mod %s {\nuse vstd::prelude::*;\nuse crate::*;\n%sverus! {\n// ---- %s\n%s\n}\n}\n' % (nm, uses, os.path.basename(p), open(p).read()))
         else:
             main_text += '// ---- %s\n' % os.path.basename(p) + open(p).read() + '\n'
